@@ -494,7 +494,12 @@ func (c *compiler) evalIdentifier(node *ast.Identifier) (interface{}, error) {
 			return nil, fmt.Errorf("'%s' does not have a field or method named '%s' (%s)", node.Callee.String(), node.Value, node)
 		}
 
-		f := rv.FieldByName(node.Value)
+		f, reachable := fieldByName(rv, node.Value)
+		if !reachable {
+			// promoted through an embedded pointer that is nil
+			return nil, nil
+		}
+
 		if f.Kind() == reflect.Ptr {
 			if f.IsNil() {
 				return nil, nil
@@ -1240,6 +1245,28 @@ func (c *compiler) evalIndexCallee(rv reflect.Value, node *ast.IndexExpression) 
 	}
 
 	return vvs, nil
+}
+
+// fieldByName is reflect.Value.FieldByName for a struct value, except that a
+// field promoted through an embedded pointer that is nil is reported as not
+// reachable instead of panicking.
+func fieldByName(rv reflect.Value, name string) (f reflect.Value, reachable bool) {
+	sf, ok := rv.Type().FieldByName(name)
+	if !ok {
+		return reflect.Value{}, true
+	}
+
+	for _, i := range sf.Index {
+		if rv.Kind() == reflect.Ptr {
+			if rv.IsNil() {
+				return reflect.Value{}, false
+			}
+			rv = rv.Elem()
+		}
+		rv = rv.Field(i)
+	}
+
+	return rv, true
 }
 
 // calleeRootName finds the identifier at the root of the callee chain of a
